@@ -51,6 +51,7 @@ type profile struct {
 	policies   []string
 	targets    []string
 	posTotals  bool // only positive totals
+	staleP     int  // % of clients that keep using a bar after it left the display
 }
 
 var baseProfile = profile{
@@ -79,6 +80,7 @@ var baseProfile = profile{
 	maxClients: 4,
 	maxOps:     12,
 	width:      100,
+	staleP:     25,
 	policies:   []string{"none", "light", "light", "heavy", "targeted"},
 	targets:    []string{"hm.push", "hm.req", "dist.collected", "bar.exit", "early.refresh", "flush.bar", "render.requested", "bar.trigger"},
 }
@@ -226,6 +228,46 @@ func genMixed(seed uint64, fam string, pf profile) *Scenario {
 				ops = append(ops, Op{K: "sleep", N: int64(r.Pick(5, 50, 300))})
 			}
 		}
+		// use-after-leave: finish a bar that leaves the display (removed, dropped,
+		// popped), let a few cycles pass, then keep calling it and the container
+		// about it (priority updates on a bar that is no longer in the heap, ...)
+		if n > 1 && sc.Mode != "none" && r.Chance(pf.staleP, 100) {
+			bi := r.Intn(n)
+			b := sc.Bars[bi]
+			if b.AddBy == -1 || b.AddBy == ci {
+				if r.Bool() && !sc.Pop {
+					ops = append(ops, Op{K: "abort", B: bi, F: true})
+				} else {
+					ops = append(ops, g.finishOp(bi, b)...)
+				}
+				for k := 0; k < r.Range(2, 4); k++ {
+					if sc.Mode == "manual" {
+						ops = append(ops, Op{K: "rw"})
+					} else {
+						ops = append(ops, Op{K: "waitcycles", N: 1})
+					}
+				}
+				for k := 0; k < r.Range(1, 5); k++ {
+					switch r.Intn(7) {
+					case 0, 1:
+						ops = append(ops, Op{K: "setprio", B: bi, N: int64(r.Range(-3, 30))})
+					case 2:
+						ops = append(ops, Op{K: "prio", B: bi, N: int64(r.Range(-3, 30)), F: r.Bool()})
+					case 3:
+						ops = append(ops, Op{K: "get", B: bi})
+					case 4:
+						ops = append(ops, Op{K: "incr", B: bi, N: 1})
+					case 5:
+						ops = append(ops, Op{K: "abort", B: bi, F: r.Bool()})
+					default:
+						ops = append(ops, Op{K: "barwaitdone", B: bi})
+					}
+					if r.Bool() {
+						ops = append(ops, Op{K: "waitcycles", N: 1})
+					}
+				}
+			}
+		}
 		if sc.Mode == "manual" {
 			ops = append(ops, Op{K: "refresh"})
 		}
@@ -314,6 +356,11 @@ func genFor(prop, part string, seed uint64) *Scenario {
 	case "C04", "C18":
 		return genC04(seed, part, prop)
 	case "C01":
+		if part == "err" {
+			sc := genC15(seed, common.NewRng(seed).PickS("filler", "filler", "output"))
+			sc.Fam = "C01/err"
+			return sc
+		}
 		pf.nBars = []int{0, 1, 2, 3, 5, 8, 17, 40}
 		pf.late = false
 		if part == "nq" {
@@ -331,6 +378,12 @@ func genFor(prop, part string, seed uint64) *Scenario {
 			pf.slowP = 3
 		}
 	case "C02":
+		if part == "err" {
+			sc := genC15(seed, common.NewRng(seed).PickS("filler", "filler", "output"))
+			sc.Fam = "C02/err"
+			sc.Late = true
+			return sc
+		}
 		pf.late = true
 		pf.endKinds = []string{"natural", "cancel", "shutdown", "cancel"}
 		pf.clientAddP = 40
